@@ -733,6 +733,33 @@ func runStreamC06(c *Ctx, f *streamFmt) {
 		}
 	}
 
+	// 4a. one long line (past bufio's 4096-byte buffer, past 64 KiB) between short
+	// ones: readers that only cope with lines that fit a buffer break here, and
+	// how they break can depend on the read schedule
+	for _, ln := range []int{4000, 4095, 4096, 4097, 5000, 8192, 70000} {
+		if f.name == "newick" && ln > 8192 {
+			continue // the Newick model's tokeniser is quadratic in the token length
+		}
+		d := streamLongLine(c, f.name, ln)
+		if d == nil {
+			continue
+		}
+		f.runSched(c, d, nil, false, "whole", "input/long-line")
+		f.runSched(c, d, []int{4096}, true, "bufio-4096", "input/long-line")
+		f.runSched(c, d, randPartition(c, len(d), true), false, "random-partition", "input/long-line")
+		if ln <= 5000 {
+			ones := make([]int, len(d))
+			for i := range ones {
+				ones[i] = 1
+			}
+			f.runSched(c, d, ones, false, "one-byte", "input/long-line")
+		}
+		if !f.readOnly {
+			fileIn := f.withOracle(L(B(d), I(c.Intn(2))), d)
+			c.Run(f.kFile, fileIn, true, f.name+"/file-long-line")
+		}
+	}
+
 	// 4. long inputs: chunk sizes around bufio's 4096-byte buffer
 	for i := 0; i < c.Pick(2, 8); i++ {
 		var d []byte
@@ -763,6 +790,35 @@ func runStreamC06(c *Ctx, f *streamFmt) {
 		w, _, st := f.gen(c, c.Pick(400, 3000), true)
 		in := f.withOracle(L(B(w)), w, toCRLF(w))
 		c.Run(f.kCRLF, in, bytes.IndexByte(w, '\n') >= 0, f.name+"/crlf", st)
+		// the same text with blank lines (and, for BED, comment lines) between the
+		// lines: still well-formed for the formats that skip them, and the CRLF
+		// variant then contains lines that consist of a lone CR
+		if f.name == "bed" || f.name == "sam" || f.name == "fasta" {
+			var w2 []byte
+			if c.Intn(3) == 0 {
+				w2 = append(w2, '\n')
+			}
+			for _, line := range bytes.SplitAfter(w, []byte("\n")) {
+				w2 = append(w2, line...)
+				if len(line) > 0 && line[len(line)-1] == '\n' {
+					switch c.Intn(4) {
+					case 0:
+						w2 = append(w2, '\n')
+					case 1:
+						if f.name == "bed" {
+							w2 = append(w2, "# a comment\tline\n"...)
+						} else {
+							w2 = append(w2, "\n\n"...)
+						}
+					}
+				}
+			}
+			if f.name == "fasta" && len(w2) > 0 && w2[0] == '\n' {
+				w2 = w2[1:] // blank lines before the first record are outside the FASTA domain
+			}
+			in2 := f.withOracle(L(B(w2)), w2, toCRLF(w2))
+			c.Run(f.kCRLF, in2, bytes.IndexByte(w2, '\n') >= 0, f.name+"/crlf-blank-lines", st)
+		}
 	}
 
 	// 6. File
@@ -918,4 +974,41 @@ func runStreamC07(c *Ctx, f *streamFmt) {
 		}
 	}
 	c.Exhaustive(f.name + ": every writer limit 0..len(MarshalText)+1 of each record")
+}
+
+// streamLongLine returns a well-formed file of the format with one line of about
+// ln bytes between two short records.
+func streamLongLine(c *Ctx, name string, ln int) []byte {
+	long := c.RandBytes(ln, []byte("ACGTacgtNn"))
+	var buf bytes.Buffer
+	switch name {
+	case "fasta":
+		(&fasta.Fasta{Name: []byte("a"), Sequence: []byte("ACGT")}).Write(&buf)
+		(&fasta.Fasta{Name: long, Sequence: []byte("AC")}).Write(&buf)
+		(&fasta.Fasta{Name: []byte("b"), Sequence: []byte("GT")}).Write(&buf)
+	case "fastq":
+		(&fastq.Fastq{Name: []byte("a"), Sequence: []byte("AC"), Quals: []byte("II")}).Write(&buf)
+		(&fastq.Fastq{Name: []byte("long"), Sequence: long, Quals: bytes.Repeat([]byte("I"), ln)}).Write(&buf)
+		(&fastq.Fastq{Name: []byte("b"), Sequence: []byte("G"), Quals: []byte("!")}).Write(&buf)
+	case "sam", "samrec":
+		buf.WriteString("@HD\tVN:1.6\n")
+		mk := func(q string, seq []byte) *sam.SAM {
+			return &sam.SAM{Qname: q, Flag: 4, Rname: "*", Cigar: "*", Rnext: "*", Seq: string(seq), Qual: "*",
+				Tags: map[string]any{"NM": 3, "XZ": "after"}}
+		}
+		mk("a", []byte("AC")).Write(&buf)
+		mk("long", long).Write(&buf)
+		buf.WriteString("@CO\t" + string(long) + "\n")
+		mk("b", []byte("G")).Write(&buf)
+	case "bed":
+		(&bed.BED{N: 4, Chrom: "c", ChromStart: 1, ChromEnd: 2, Name: "n"}).Write(&buf)
+		(&bed.BED{N: 4, Chrom: "c", ChromStart: 3, ChromEnd: 4, Name: string(long)}).Write(&buf)
+		(&bed.BED{N: 4, Chrom: "d", ChromStart: 5, ChromEnd: 6, Name: "m"}).Write(&buf)
+	case "newick":
+		(&newick.Node{Name: "r", Children: []*newick.Node{{Name: string(long), Distance: 1.5}, {Name: "x y"}}}).Write(&buf)
+		buf.WriteString("\n(a,b)c;\n")
+	default:
+		return nil
+	}
+	return buf.Bytes()
 }
